@@ -34,6 +34,12 @@ var propMeta = map[string]propInfo{
 	"C16": {Pkg: "store", Level: "exploration", QuickRuns: 6000, QuickBudgetS: 25,
 		Rule:  "one evaluation = one run: either a generated directory (0-5 entries of every kind, .tmp absent/dir/with residue, unreadable) judged by Check under 3 permuted directory orders and by Init against the reference predicate, or a 5-30 step history from a valid store with check / work-area / one-file-per-user invariants after every call; distinct non-trivial = distinct directory contents or histories",
 		Real:  realL, Stub: stubsL, Assumptions: assumeL},
+	"C05": {Pkg: "sasl", Level: "exploration", QuickRuns: 6000, QuickBudgetS: 25,
+		Rule:  "one evaluation = one run: real sasl.Server on simnet with 1-6 concurrent raw client connections; each connection's byte stream (valid, at the limits, truncated, over-long, trailing bytes, garbage) is delivered in scheduler-chosen fragments interleaved across connections, with client close at any point, stalls and resets; callback outcome (ok / message of 0..70000 bytes / error) drawn per connection; per-connection oracle after every step; distinct non-trivial = distinct (stream, callback outcome, delivery/close pattern) tuples",
+		Real:  []string{"sasl (all of it, unmodified; import of net redirected)", "bufio.Scanner"}, Stub: []string{"unix socket -> simnet (byte delivery, close, reset decided by the scheduler)", "authentication callback -> harness stub with drawn outcome"}, Assumptions: []string{"a client that merely stalls obliges the server to nothing (the code has no read timeout and the property states none)"}},
+	"C13": {Pkg: "sasl", Level: "exploration", QuickRuns: 20000, QuickBudgetS: 20,
+		Rule:  "one evaluation = one run: a request byte string (field lengths from {0,1,2,7,255,256,257,300,65535}, every truncation of valid messages, arbitrary and mutated bytes) decoded under 3-6 read schedules (all at once, 1-byte reads, random fragments with zero-length reads and data returned with EOF) and compared with the reference decoder; encoder bytes, limits, round trip, re-encoding of the consumed prefix; responses likewise; distinct non-trivial = distinct inputs",
+		Real:  []string{"sasl/sasl_encoding.go (unmodified)", "bufio.Scanner"}, Stub: []string{"io.Reader -> scripted reader whose fragmentation is chosen by the tape"}, Assumptions: []string{"format and round-trip clauses are input-determined; the simulator contributes the read schedule"}},
 	"C08": {Pkg: "store", Level: "fault_enumeration", QuickRuns: 400, QuickBudgetS: 40,
 		Rule:  "one evaluation = one crash point: for a generated scenario (store with 1-4 reference-written users, aux data of every shape, one init/add/update) EVERY simfs operation boundary of the call and three prefixes inside every write is a crash point; at each, the process-kill image and the power-loss images (all of them when <= limit, else DFS prefix + sampled) are opened with a fresh store and judged by the recovery oracle; distinct non-trivial = distinct (configuration, operation, population, aux size) scenarios swept",
 		Real:  realL, Stub: stubsL, Assumptions: assumeL},
